@@ -319,6 +319,8 @@ pub struct Sim {
     /// frame injections written into packets (`Connection::verif_take_injected`), collected after every
     /// poll_transmit: (node, connection handle, space, packet number, bytes written)
     pub inj_log: Vec<(usize, usize, u8, u64, usize)>,
+    /// C07: per-destination ledger with the harness' own notion of validated addresses (`crate::ledger`)
+    pub ledger: crate::ledger::DestLedger,
 }
 
 pub fn addr(port: u16) -> SocketAddr {
@@ -422,6 +424,7 @@ impl Sim {
             model_impl: Vec::new(),
             rx_tap: None,
             inj_log: Vec::new(),
+            ledger: Default::default(),
         }
     }
 
@@ -443,6 +446,7 @@ impl Sim {
         let now = self.t();
         let server = self.nodes[SERVER].addr;
         let (ch, conn) = self.nodes[CLIENT].ep.connect(now, cfg, server, "localhost").expect("connect");
+        self.ledger.trust(CLIENT, server);
         let mut conn = conn;
         if self.record_plain {
             conn.verif_txlog_enable();
@@ -551,6 +555,18 @@ impl Sim {
         let seg = seg.unwrap_or(size.max(1));
         let mut off = 0;
         self.cur_ch = ch;
+        if ch.is_none() {
+            self.ledger.ep_tx(node, dst, &buf[..size]);
+            if !self.ledger.is_validated(node, &dst) {
+                // cumulative: everything the endpoint itself ever sent to the address against everything it received from it
+                let sent = *self.nodes[node].sent_to.get(&dst).unwrap_or(&0);
+                let recvd = *self.nodes[node].recv_from.get(&dst).unwrap_or(&0);
+                self.ledger.checks += 1;
+                if !crate::ledger::DestLedger::may_start(sent, recvd) {
+                    self.fail("stateless-response-exceeds-3x", format!("node {node}: endpoint response of {size} bytes to unvalidated {dst} with {sent} bytes already sent to it and {recvd} received from it"));
+                }
+            }
+        }
         while off < size {
             let end = (off + seg).min(size);
             *self.nodes[node].sent_to.entry(dst).or_default() += (end - off) as u64;
@@ -584,6 +600,7 @@ impl Sim {
     pub fn handle_datagram(&mut self, node: usize, d: Dgram) {
         let now = self.t();
         let mut buf = Vec::new();
+        self.ledger.on_rx(node, d.from, &d.data);
         let ev = self.nodes[node].ep.handle(now, d.from, None, d.ecn, BytesMut::from(&d.data[..]), &mut buf);
         // bytes are credited to the sender's address when the datagram is consumed: at once for datagrams the
         // endpoint itself answers or turns into a new connection, and when the connection handles the event for
@@ -596,6 +613,7 @@ impl Sim {
             Some(DatagramEvent::ConnectionEvent(ch, ev)) => {
                 if let Some(nc) = self.nodes[node].conns.get_mut(&ch.0) {
                     nc.events.push_back((ev, d.data.len(), d.from));
+                    self.ledger.routed(node, ch.0, &d.data);
                 }
             }
             Some(DatagramEvent::NewConnection(inc)) => self.on_incoming(node, inc),
@@ -615,6 +633,14 @@ impl Sim {
             self.fail(
                 "stateless-reset-not-smaller",
                 format!("node {node} answered a {}-byte short-header datagram with {size} bytes", inciting.data.len()),
+            );
+        }
+        // C07 / RFC 9000 8.1: a reply the endpoint generates without connection state goes to an address nothing
+        // has validated, so it may not exceed three times the datagram that provoked it
+        if size > 3 * inciting.data.len() && !self.ledger.is_validated(node, &inciting.from) {
+            self.fail(
+                "stateless-response-exceeds-3x",
+                format!("node {node} answered a {}-byte datagram (first byte {:#04x}) from {} with a {size}-byte endpoint response", inciting.data.len(), inciting.data.first().copied().unwrap_or(0), inciting.from),
             );
         }
     }
@@ -720,7 +746,10 @@ impl Sim {
                 f(self, node, ch, len, false);
                 self.rx_tap = Some(f);
             }
+            let authed_before = self.nodes[node].conns[&ch].conn.verif_snapshot().total_authed_packets;
             self.nodes[node].conns.get_mut(&ch).unwrap().conn.handle_event(ev);
+            let authed_after = self.nodes[node].conns[&ch].conn.verif_snapshot().total_authed_packets;
+            self.ledger.handled(node, ch, from, authed_after > authed_before);
             if let Some(mut f) = self.rx_tap.take() {
                 f(self, node, ch, len, true);
                 self.rx_tap = Some(f);
@@ -1038,6 +1067,7 @@ impl Sim {
                 self.fail("too-many-segments", format!("node {node}: {n} segments > max_datagrams"));
             }
         }
+        self.check_dest_ledger(node, ch, before, t);
         // C07: anti-amplification towards an unvalidated address
         if self.check_amp && !before.path.validated && t.destination == before.path.remote {
             let (sb, rb) = match self.nodes[node].amp_epoch.get(&ch) {
@@ -1060,6 +1090,33 @@ impl Sim {
                 sent += len as u64;
                 off += len;
             }
+        }
+    }
+
+    /// C07, per destination: every datagram of a connection transmit towards an address the harness has not seen
+    /// validated, judged on the cumulative byte counts of that address (never rebased)
+    fn check_dest_ledger(&mut self, node: usize, ch: usize, before: &Snapshot, t: &quinn_proto::Transmit) {
+        if !self.ledger.on || self.ledger.is_validated(node, &t.destination) {
+            return;
+        }
+        let off_path = t.destination != before.path.remote;
+        if off_path {
+            self.ledger.off_path_tx += 1;
+        }
+        let seg = t.segment_size.unwrap_or(t.size.max(1));
+        let recvd = *self.nodes[node].recv_from.get(&t.destination).unwrap_or(&0);
+        let mut sent = *self.nodes[node].sent_to.get(&t.destination).unwrap_or(&0);
+        let mut off = 0;
+        while off < t.size {
+            let len = seg.min(t.size - off);
+            self.ledger.checks += 1;
+            if !crate::ledger::DestLedger::may_start(sent, recvd) {
+                let key = if off_path { "amplification-limit-exceeded-off-path" } else { "amplification-limit-exceeded-cumulative" };
+                self.fail(key, format!("node {node} conn {ch}: datagram of {len} bytes to {} (never validated: no Handshake packet, token or challenge answer seen from it; connection path is {}, path.validated {}) with {sent} bytes already sent to it and {recvd} received from it in total (3x = {})", t.destination, before.path.remote, before.path.validated, 3 * recvd));
+                break;
+            }
+            sent += len as u64;
+            off += len;
         }
     }
 
